@@ -72,6 +72,14 @@ PROPS = {
              "checked against each other) and NslSem computes the value each accepted program must return, which depends on the declaration each use binds to. "
              "Every program is compiled at both optimisation levels and the accepted ones are executed. Exhaustive to the stated size.",
         note=_TRUST + "Rejection = Compile returns None or raises. Parameter/global clashes are not enumerated (not settled by the statement)."),
+    "C13": dict(
+        claimed=True, level="model_checking",
+        technique="TLC enumerates the whole grid of element-selection cases with the verdict of the TLA+ rules NslStatic!ConstIndexOk / MaskOk (MaskOk checked against a second formulation); every case is replayed through the real compiler in several contexts (spec->code conformance)",
+        text="Array shapes of 1-3 dimensions x a constant from below zero to beyond the extent at every position of the access chain, vector and matrix constants, "
+             "every kind of index-expression type, and every swizzle mask up to length 3 (quick) / 4 (thorough) over xyzw, rgba and foreign letters on vectors "
+             "of size 2-4 are enumerated in TLA+ with the verdict the statement prescribes; the driver renders each case as local/global/parameter reads and "
+             "writes and compares accept/reject with the real compiler. Exhaustive on the stated grid.",
+        note=_TRUST + "Rejection = Compile returns None or raises. Swizzles on scalars and repeated letters in write masks are not judged."),
     "C14": dict(
         claimed=True, level="model_checking",
         technique="TLA+ specification IRWellFormed checked by TLC on the projection of the real compiler's IR: static invariants plus exhaustive exploration of all control-flow paths of every function (nondeterministic branch outcomes) for definition-before-use",
